@@ -575,6 +575,9 @@ theorem fv_step (h : Hooks) (fuel : Nat) (hFs : PFiles h fuel) : PFv h (fuel + 1
       simp only [] at hp
       split at hp
       · cases hp
+      rename_i hbmap
+      split at hp
+      · cases hp
       · rename_i st1 hpol
         split at hp
         · cases hp
